@@ -9,9 +9,9 @@ from harness.core import cfg_text, Machinery
 from harness.drivers import rekey as rk
 
 
-def consts(mode, a_client, inflight=("plain", "wants_user_reply", "wants_direct_reply"), n=2, u=2, lock=True):
+def consts(mode, a_client, inflight=("plain", "wants_user_reply", "wants_direct_reply"), n=2, u=2, lock=True, ungated=False):
     return {"ReplyMode": mode, "AIsClient": a_client, "Inflight": set(inflight), "MaxInflight": n, "UserMsgs": u,
-            "KexinitTakesLock": lock}
+            "KexinitTakesLock": lock, "UngatedUser": ungated}
 
 
 INVS = ["KexQuiet", "SessionStaysUp", "NoSelfWait"]
@@ -32,6 +32,9 @@ def run(c):
     c.mc("Rekey", cfg_text(constants=consts("deferred", True, inflight=("plain",), n=1, lock=False), invariants=INVS, deadlock=True),
          expect="KexQuiet|SessionStaysUp", name="sensitivity: KEXINIT sent without taking clear_to_send_lock (overtakes a user packet)")
 
+    c.mc("Rekey", cfg_text(constants=consts("deferred", True, inflight=("plain",), n=1, ungated=True), invariants=INVS, deadlock=True),
+         expect="KexQuiet|SessionStaysUp", name="sensitivity: a user-level send that does not consult clear_to_send (fire-and-forget request, keepalive)")
+
     rnd = random.Random(c.seed)
     batch = []
     kinds = [k for k in rk.KINDS]
@@ -50,6 +53,13 @@ def run(c):
             obs = rk.run_scenario(init, "gated_user_send")
             batch.append(obs)
             c.case(key=(init, "gated_user_send", 1), sample=obs if init == "client" and rep == 0 else None)
+    # every user-level sending API of the initiator used from application threads during the exchange, and its keepalive timer firing
+    for init in ("client", "server"):
+        for apis in ("user_apis", "keepalive_timer"):
+            for rep in range(1 if c.quick else 3):
+                obs = rk.run_scenario(init, apis)
+                batch.append(obs)
+                c.case(key=(init, apis, 1), sample=obs if init == "client" and rep == 0 and apis == "user_apis" else None)
     # a channel-open confirmation in flight while a second user thread opens a channel during the exchange
     for init in ("client",):      # open_channel is the same code in both roles; a client refuses server-opened sessions
         for rep in range(1 if c.quick else 3):
